@@ -15,6 +15,22 @@ def leaves_of(part):
     return out
 
 
+def units_of(part):
+    """What a device that takes batches apart handles one by one: the direct members of a batch (which may be
+    batches themselves), or the part itself."""
+    parts = getattr(part, 'parts', None)
+    return [part] if parts is None else list(parts)
+
+
+def descendants_of(part):
+    """Everything inside a batch, at every depth (inner batches and their contents)."""
+    out = []
+    for p in getattr(part, 'parts', None) or []:
+        out.append(p)
+        out.extend(descendants_of(p))
+    return out
+
+
 class Census:
     __slots__ = ('slots', 'loc', 'dups', 'now', 'oper', 'opaque')
 
